@@ -3,6 +3,7 @@
    of result of entry point e when the seven stages end as the fault assignment f says. *)
 From Coq Require Import ZArith.
 From ACV Require Import Base.Strs Model.Pipeline Model.PipelineRef Proofs.PipelineProofs Extracted.PipelineFacts.
+From ACV Require Model.Rendezvous Proofs.RendezvousProofs.
 Local Open Scope list_scope.
 
 (* ties: the stage functions send, recover and return as modelled; the exported functions close as modelled *)
@@ -57,6 +58,33 @@ Example C11_example :
    (map Send (events_of [ProfileParsing; RegoGeneration; RegoCompilation; InputDataParsing]) ++ [Send (Start InputDataNormalization); Close], KError).
 Proof. vm_compute. reflexivity. Qed.
 
+(* the channel itself (Model/Rendezvous.v, abbreviated R): dispatchEvent is one blocking send on an unbuffered channel
+   (C11_tie_events: `if eventChan != nil { send }`), so the call waits inside the send until the listener takes the event.
+   A listener that takes every event - however long it takes over each - sees every event of the program once, in program
+   order, and the call does all its work in order: nothing is lost, nothing overtakes *)
+Module R := Rendezvous.
+Module RP := RendezvousProofs.
+Theorem C11_listener_sees_every_event_in_order : forall (E L : Type) (prog : list (R.pstep E L)) d t,
+  R.run R.always prog d t = {| R.todo := []; R.did := d ++ R.works prog; R.taken := t ++ R.sends prog |}.
+Proof. exact RP.always_runs_to_the_end. Qed.
+(* any listener (any rule for when it takes the next event): the call can only ever wait INSIDE A SEND the listener refuses,
+   having done exactly the work before it and delivered exactly the events before it; once the listener takes events again
+   the rest follows in order *)
+Theorem C11_any_listener : forall (E L : Type) (pol : R.policy E) (prog : list (R.pstep E L)),
+  let c := R.run pol prog [] [] in
+  (R.todo c = [] \/ exists e r, R.todo c = R.PSend e :: r /\ pol (R.taken c) = false)
+  /\ (exists pre, prog = pre ++ R.todo c /\ R.did c = R.works pre /\ R.taken c = R.sends pre)
+  /\ R.did (R.run R.always (R.todo c) (R.did c) (R.taken c)) = R.works prog
+  /\ R.taken (R.run R.always (R.todo c) (R.did c) (R.taken c)) = R.sends prog.
+Proof.
+  intros E L pol prog c. split; [apply RP.stops_only_inside_a_send|]. split.
+  - destruct (RP.run_is_a_cut E L pol prog [] []) as [pre H]. exists pre. exact H.
+  - apply RP.parked_then_released.
+Qed.
+(* the flows of the pipeline model are such programs, and send the model's events in its order *)
+Theorem C11_flow_sends_the_modelled_events : R.sends RP.validate_flow = profile_order ++ data_order.
+Proof. exact RP.validate_flow_sends. Qed.
+
 Print Assumptions C11_tie_stage_functions.
 Print Assumptions C11_tie_entry_points.
 Print Assumptions C11_tie_events.
@@ -69,3 +97,6 @@ Print Assumptions C11_milestones.
 Print Assumptions C11_milestone_durations.
 Print Assumptions C11_sends_are_stage_pairs.
 Print Assumptions C11_refuted_without_recover.
+Print Assumptions C11_listener_sees_every_event_in_order.
+Print Assumptions C11_any_listener.
+Print Assumptions C11_flow_sends_the_modelled_events.
